@@ -53,6 +53,20 @@ Lemma file_equals_string_lemma parser fuel pf (s d : dev) :
   model_run parser fuel pf (SrcOwn s) d = model_run parser fuel pf (SrcMem (split_lines (concat s))) d.
 Proof. rewrite !model_refines_spec_lemma. reflexivity. Qed.
 
+(* an Input that returns the text in arbitrary pieces (ending anywhere, also in
+   the middle of a line) behaves like one that returns it line by line *)
+Lemma input_pieces_irrelevant_lemma parser fuel pf (p1 p2 d : dev) :
+  concat p1 = concat p2 ->
+  model_run parser fuel pf (SrcInput p1) d = model_run parser fuel pf (SrcInput p2) d.
+Proof.
+  intros H. rewrite !model_refines_spec_lemma. unfold abs_src. now rewrite H.
+Qed.
+
+Lemma input_pieces_equal_lines_lemma parser fuel pf (p d : dev) :
+  model_run parser fuel pf (SrcInput p) d
+  = model_run parser fuel pf (SrcMem (split_lines (concat p))) d.
+Proof. rewrite !model_refines_spec_lemma. reflexivity. Qed.
+
 Lemma concat_chunk (sizes : list nat) (x : list N) : concat (chunk sizes x) = x.
 Proof.
   revert x; induction sizes as [|n s IH]; intros x; cbn [chunk concat].
@@ -414,6 +428,8 @@ Proof.
       cbn [concat] in H. now rewrite app_nil_r in H.
     + pose proof (positions_are_line_boundaries_lemma parser fuel pf (SrcOwn [script]) [data] Hrl) as H.
       cbn [concat] in H. now rewrite app_nil_r in H.
+    + pose proof (positions_are_line_boundaries_lemma parser fuel pf (SrcInput (chunk sizes script)) [data] Hrl) as H.
+      cbn [concat] in H. now rewrite app_nil_r in H.
   - rewrite model_of_spec_of. apply obs_eqb_refl.
 Qed.
 
@@ -455,10 +471,11 @@ Lemma fuel_never_runs_out_lemma parser (K fuel pf : nat) src (d : dev) :
 Proof.
   intros He Hd HK Hpf Hf. rewrite model_refines_spec_lemma. unfold spec_run.
   apply (run_fuel parser K He Hd HK); [apply wf_split | | exact Hf].
-  unfold src_bytes in Hpf. destruct src as [|d0|ls]; cbn [abs_src src_size] in *; unfold abs_dev.
+  unfold src_bytes in Hpf. destruct src as [|d0|ls|d0]; cbn [abs_src src_size] in *; unfold abs_dev.
   - pose proof (split_lines_length (concat d)). lia.
   - pose proof (split_lines_length (concat d0)). lia.
   - lia.
+  - pose proof (split_lines_length (concat d0)). lia.
 Qed.
 
 (* ------------------------------------------------------------------ *)
